@@ -251,9 +251,17 @@ def rule_copy(ctx: Ctx, rule: str = "C15.any"):
     for p in ctx.paths(fn, inline=None, exc_edges="none", unroll=0):
         ctor = [e for e in p.calls() if show(e.term.func) == "Transition"]
         if ctor:
-            kw = {k.arg: xshow(k.value, p.events) for k in ctor[0].term.keywords}
-            ok = kw.get("source", "").startswith("kwargs.pop('source'") and kw.get("target", "").startswith("kwargs.pop('target'") and \
-                kw.get("internal", "").startswith("kwargs.pop('internal'") and kw.get("event", "").startswith("kwargs.pop('event'")
+            from ..shapes import dict_model
+
+            whole = xshow(ctor[0].term, p.events)
+            # every one of the four fields falls back to the original's value and can be overridden by the caller's kwargs
+            srcs = whole
+            for kw_ in ctor[0].term.keywords:
+                if kw_.arg is None and isinstance(kw_.value, ast.Name):
+                    dm = dict_model(p, kw_.value.id)
+                    if dm is not None:
+                        srcs += " " + " ".join(f"{k_}={xshow(v, p.events)}" for k_, v, _ in dm.writes)
+            ok = all(f"self.{nm}" in srcs for nm in ("source", "target", "event", "internal")) and "kwargs" in srcs
             rep.check(ok, rule, ctor[0].loc(), "the copy takes source/target/event/internal from the overrides or else from the original", fn.key,
                       norm_stmt(ctor[0].node))
         break
@@ -388,6 +396,12 @@ def rule_enum(ctx: Ctx):
         e = d.generators[0].target.id
         rep.check(show(d.key) == f"{e}.name", "C15.enum", fn.loc(), "the state id is the enum member's name", fn.key, f"key: {show(d.key)}")
         st = d.value
+        if isinstance(st, ast.Call) and show(st.func) != "State":
+            from ..shapes import call_value
+
+            through = call_value(ctx, st, fn)  # a helper that builds the State of one member
+            if through is not None:
+                st = through
         kw = {k.arg: k.value for k in st.keywords} if isinstance(st, ast.Call) and show(st.func) == "State" else {}
         init = kw.get("initial")
         ok_i = isinstance(init, ast.Compare) and isinstance(init.ops[0], (ast.Is, ast.Eq)) and {show(init.left), show(init.comparators[0])} == {e, fn.params[2]}
